@@ -33,7 +33,7 @@ def family_texts(cls, t):
         fams.append(("letter-runs-in-place", list(dict.fromkeys([t] + [t[:m.start()] + w + t[m.end():] for m in runs
                                                                      for w in (m.group()[:1], m.group() + "a", m.group() + m.group(), m.group()[:-1] or "x")]))))
     fams.append(("case", list(dict.fromkeys([t, t.upper(), t.lower(), t.capitalize(), t.swapcase()]))))
-    fams.append(("decorations", [t, t + "-", t + "-0", "0:" + t, "00:" + t, t + "+", t + ".", t + "~", t + "-0-0", t + "-1-", "1:" + t, ":" + t, t + "_", "+" + t]))
+    fams.append(("decorations", [t, t + "-", t + "-0", "0:" + t, "00:" + t, t + "+", t + ".", t + "~", t + "-0-0", t + "-1-", "1:" + t, ":" + t, t + "_", "+" + t, t + "%2B1", t + "%7E1", t + "%41"]))
     return fams
 
 
@@ -216,6 +216,22 @@ def run(ctx, pid, r, viol, classes=None, nbase=None, cap=None):
                         okv = vers.res_bool(lambda: vc.VersionConstraint.validate(list(n1.constraints)))
                         if not (lo in n1 and hi in n1) or n1 != n2 or okv != "OK true":
                             bad(f"{name}: (>={lo.string}).normalize([{lo.string!r}, {hi.string!r}]) = {n1} (other order: {n2}): validates {okv}, members {lo in n1}, {hi in n1}", inputs=inp)
+                        else:
+                            # the same known versions under spellings the constructor accepts as equal (a leading v, blanks)
+                            def respell(v):
+                                for t in ("v" + v.string, " " + v.string + " ", "V" + v.string):
+                                    try:
+                                        w = cls(t)
+                                        if w == v and not (w < v) and not (v < w):
+                                            return t
+                                    except Exception:  # noqa
+                                        pass
+                                return v.string
+                            ks = [respell(lo), respell(hi)]
+                            if ks != [lo.string, hi.string]:
+                                n3 = rcls(constraints=[C("GE", lo)]).normalize(ks)
+                                if not (lo in n3 and hi in n3) or n3 != n1:
+                                    bad(f"{name}: (>={lo.string}).normalize({ks}) = {n3}, but with the plain spellings it is {n1}", inputs=dict(inp, known=ks))
                 elif pid == "C05":
                     if x == "eq":
                         continue
